@@ -81,6 +81,41 @@ def run(ctx: Ctx) -> None:
                           "parameters (or tuple elements) are solved independently and the merge keeps the last one, so an ill-typed generic call is accepted")
     ctx.floor("R-C12.5", "multi-part check loops that merge solutions", n_sites, 3)
     _check_inst(ctx)
+    _substituter(ctx)
+
+
+def _substituter(ctx: Ctx) -> None:
+    """R-C12.7  applying a substitution replaces exactly the solved variables.
+
+    The two variable arms of `Substituter` are interpreted: a variable that the substitution solves is replaced
+    by its image, any other variable yields None ("not handled here": the generic transformer keeps it and
+    descends).  There must be an arm for type variables and one for const variables, and no other arm (every
+    other constructor is rebuilt structurally by the generic transformer).
+    """
+    from ..absint.minieval import Unsupported
+    from ..absint.pyeval import PyEval, Raised, Tok
+
+    idx = ctx.idx
+    cls = idx.find_class("Substituter", "guppylang_internals.tys.subst")
+    arms = {n: f for n, f in cls.methods.items() if n.startswith("_transform_")}
+    want = {"_transform_ExistentialTypeVar", "_transform_ExistentialConstVar"}
+    ctx.check(set(arms) == want, "R-C12.7", f"{cls.qualname}#arms", cls.where, {"arms": sorted(arms), "expected": sorted(want)},
+              "the substituter lacks an arm for a kind of inference variable (it is never replaced) or overrides another constructor")
+    for name, f in sorted(arms.items()):
+        ps = [a.arg for a in f.node.args.args]
+        v1, v2, img = Tok("?A", __class__="ExistentialTypeVar", __ident__=1), Tok("?B", __class__="ExistentialTypeVar", __ident__=1), Tok("image", __class__="NumericType", __ident__=1)
+        bad = []
+        try:
+            for var, subst, expect in ((v1, {v1: img}, img), (v2, {v1: img}, None), (v1, {}, None)):
+                out = PyEval(idx, f.module.name).run_function(f, {ps[0]: Tok("self", subst=dict(subst), __ident__=1), ps[1]: var})
+                got = out[1] if out[0] in ("return", "fall") else out
+                if got is not expect and got != expect:
+                    bad.append({"variable": var.name, "solved": [k.name for k in subst], "got": repr(got), "want": repr(expect)})
+        except (Unsupported, Raised) as e:
+            ctx.undecided("R-C12.7", f"{f.qualname}#image-or-none", f.where, str(e))
+            continue
+        ctx.check(not bad, "R-C12.7", f"{f.qualname}#image-or-none", f.where, {"cases": 3, "counterexamples": bad},
+                  "applying a substitution does not replace a solved variable by its solution (or replaces an unsolved one)")
 
 
 def _check_inst(ctx: Ctx) -> None:
